@@ -1699,6 +1699,48 @@ func (c *vCluster) restart(n int) {
 	c.finish(vEv{Ev: "recovered", N: n})
 }
 
+// masked schedules: start-up recovery writes what each peer streams in separate, unordered
+// transactions, so it is only stepped into when all peers hold the same digests.
+func (c *vCluster) peersAgree(n int) bool {
+	for p := 1; p <= c.n; p++ {
+		for q := p + 1; q <= c.n; q++ {
+			if p == n || q == n {
+				continue
+			}
+			for _, k := range c.keys {
+				dp, _, _ := vProject(c.w.nodes[p].eng, k)
+				dq, _, _ := vProject(c.w.nodes[q].eng, k)
+				if dp != dq {
+					return false
+				}
+			}
+		}
+	}
+	return true
+}
+
+func (c *vCluster) syncPeers(n int) bool {
+	for round := 0; round < 8 && !c.peersAgree(n) && c.broken == ""; round++ {
+		for i := 1; i <= c.n; i++ {
+			for j := 1; j <= c.n; j++ {
+				if i == j || i == n || j == n || !c.w.nodes[i].up || !c.w.nodes[j].up {
+					continue
+				}
+				c.tick(i, j)
+				for idx := 0; idx < len(c.net); {
+					if m := c.net[idx]; m.T != "fb" && m.To != n && m.From != n {
+						c.deliver(idx)
+						idx = 0
+						continue
+					}
+					idx++
+				}
+			}
+		}
+	}
+	return c.peersAgree(n)
+}
+
 func (c *vCluster) sub(n int, kind string) {
 	nd := c.w.nodes[n]
 	if !nd.up {
@@ -1727,6 +1769,10 @@ func (c *vCluster) allInfected() int {
 // fair rounds until nothing is infected and nothing is in flight; masked: unsafe feedback is lost.
 func (c *vCluster) quiesce(masked bool) {
 	for i := 1; i <= c.n; i++ {
+		if masked && !c.w.nodes[i].up && !c.syncPeers(i) {
+			c.broken = "peers did not agree before a masked restart"
+			return
+		}
 		c.restart(i)
 	}
 	for round := 0; round < 60 && c.broken == ""; round++ {
@@ -1962,7 +2008,7 @@ func (c *vCluster) runRandom(rnd *rand.Rand, steps int, masked bool) {
 			c.crash(n)
 		case r < 97:
 			for i := 1; i <= c.n; i++ {
-				if !c.w.nodes[i].up {
+				if !c.w.nodes[i].up && (!masked || c.syncPeers(i)) {
 					c.restart(i)
 				}
 			}
